@@ -5,7 +5,7 @@ the clean tree and fails with the change), run the primary check (and extra ones
 store patch, demo and meta.json under /verif/seeded/<ID>_<k>/."""
 import glob, json, os, re, subprocess, sys, shutil
 
-EXTRA = {"C01": ["C03"], "C03": ["C01"], "C07": ["C01"], "C02": ["C06"], "C06": ["C02"], "C05": ["C08"], "C08": ["C11"], "C09": ["C08"],
+EXTRA = {"C01": ["C03"], "C03": ["C01"], "C07": ["C01"], "C02": ["C06", "C19"], "C06": ["C02"], "C05": ["C08"], "C08": ["C11"], "C09": ["C08"],
          "C10": ["C12"], "C11": ["C09"], "C12": ["C10"], "C13": ["C14"], "C14": ["C13"], "C16": ["C17"], "C17": ["C16"]}
 props = {json.loads(l)["id"]: json.loads(l) for l in open("/verif/properties.jsonl")}
 
